@@ -400,6 +400,12 @@ func main() {
 			}
 		}
 	}
+	if os.Getenv("VERIF_DEBUG_MEM") != "" {
+		var m runtime.MemStats
+		runtime.GC()
+		runtime.ReadMemStats(&m)
+		fmt.Fprintln(os.Stderr, "heap MB:", m.HeapAlloc>>20, "sys MB:", m.Sys>>20, "goroutines:", runtime.NumGoroutine(), "timeouts:", atomic.LoadInt64(&timeouts))
+	}
 	// construct coverage summary
 	var cs []string
 	for k := range run.Res.Distribution {
